@@ -131,7 +131,7 @@ def floors(tier):
          "swap_form:pair": 20 * k, "swap_form:groups": 20 * k, "swap_form:multi": 20 * k, "swap_form:repeat": 10 * k,
          "swap_form:charge-single": 20 * k, "swap_form:charge-list": 20 * k,
          "swap_fused:hard": 20 * k, "swap_fused:meta": 20 * k, "swap_fused:two-level": 10 * k, "swap_lazy_operands": 60 * k,
-         "swap_involution_checked": 250 * k, "swap_bosonic_identity_checked": 60 * k, "swap_elements_compared": 20000 * k,
+         "swap_charge_as_list": 10 * k, "swap_involution_checked": 250 * k, "swap_bosonic_identity_checked": 60 * k, "swap_elements_compared": 20000 * k,
          "ncon_networks": 100 * k, "ncon_orders_accepted": 1500 * k, "ncon_orders_rejected_inefficient": 5 * k,
          "ncon_sign_sensitive_networks": 40 * k, "ncon_odd_tensor_networks": 40 * k,
          "ncon_cmd:resolve_bad_swaps_orders": 300 * k, "ncon_cmd:parity_sign": 300 * k, "ncon_cmd:parity_sign_odd": 60 * k,
@@ -489,8 +489,27 @@ def swap_case(ctx, idx, k):
                "tensor": a.desc(values=a.size() <= 64)}
     call = f"axes={axes}" + (f", charge={kwargs['charge']!r}" if kwargs else "")
     what = f"swap_gate({call}) [{sym} fermionic={ferm} {state} fuse={fuse}{modes}]"
+    # documented argument types are Sequence[...]: lists are passed as often as tuples
+    if not isinstance(axes, int) and rng.random() < 0.3:
+        axes = [list(g) if isinstance(g, tuple) else g for g in axes]
+    listed = False
+    if kwargs and rng.random() < 0.15:          # the charge(s) themselves as lists (Sequence[int] / Sequence[Sequence[int]])
+        kwargs_l = {"charge": list(kwargs["charge"]) if form == "charge-single" else [list(t) for t in kwargs["charge"]]}
+        listed = True
     reach().start_case()
-    r = yb.swap_gate(axes=axes, **kwargs)
+    if listed:
+        ctx.count("swap_charge_as_list")
+        try:
+            r = yb.swap_gate(axes=axes, **kwargs_l)
+        except TypeError as e:
+            if "concatenate tuple" not in str(e):
+                raise
+            ctx.violation("exception:swap_gate:charge-given-as-list", f"swap_gate(axes={axes}, charge={kwargs_l['charge']}) raised TypeError: {e} "
+                          "(docstring: charge is a Sequence[int] | Sequence[Sequence[int]]; the same call with tuples works)",
+                          {"axes": axes, "charge": kwargs_l["charge"], "sym": sym})
+            r = yb.swap_gate(axes=axes, **kwargs)
+    else:
+        r = yb.swap_gate(axes=axes, **kwargs)
     if fermionic:
         key = "swap_gate:" + ("charge" if kwargs else "axes") + ("" if fuse == "none" else ":fused-" + fuse) + (":lazy" if state == "lazy" else "")
     else:
